@@ -217,6 +217,8 @@ class Context:
         elif isinstance(expr, ast.TypeCast):
             a = self.eval_const(expr.a)
             return self._fit(a, expr.to_type, expr.loc)
+        elif isinstance(expr, ast.Sizeof):
+            return self.size_of(expr.query_typ)
         elif isinstance(expr, ast.Identifier) or self.is_qualified_name(expr):
             target = self.resolve_symbol(expr)
             if isinstance(target, ast.Constant):
